@@ -1260,7 +1260,7 @@ func (r *Resolver) addSubscription(triggerID uint64, add *addSubscription) error
 			return
 		}
 
-		r.markTriggerInitialized(triggerID)
+		r.markTriggerInitialized(trig)
 
 		if r.options.Debug {
 			fmt.Printf("resolver:trigger:started:%d\n", triggerID)
@@ -1277,9 +1277,13 @@ func (r *Resolver) getTrigger(id uint64) (*trigger, bool) {
 }
 
 // markTriggerInitialized marks a trigger as initialized and reports it.
-func (r *Resolver) markTriggerInitialized(triggerID uint64) {
-	trig, ok := r.getTrigger(triggerID)
-	if !ok {
+// The registration check, the store and the report happen in one r.mu region so that a removal
+// (which reads initialized under r.mu to decide on TriggerCountDec) cannot slip in between, and
+// a newer trigger registered under the same id is never marked on behalf of an old one.
+func (r *Resolver) markTriggerInitialized(trig *trigger) {
+	r.mu.Lock()
+	defer r.mu.Unlock()
+	if r.triggers[trig.id] != trig {
 		return
 	}
 	trig.initialized.Store(true)
